@@ -98,12 +98,14 @@ var plainSafeRe = regexp.MustCompile(`^[A-Za-z0-9+\-.~_][A-Za-z0-9+\-._]*$`)
 func plainSafe(s string) bool { return plainSafeRe.MatchString(s) && s != "-" }
 
 func loadDoc(doc string, env map[string]string, skip bool) json.RawMessage {
-	out := core.LoadOutcome(core.LoadReq{
-		Files:             map[string]string{"compose.yaml": doc, "missing.env": "K=v\n"},
-		ConfigFiles:       []string{"compose.yaml"},
-		Env:               env,
-		ProjectName:       "p",
-		SkipInterpolation: skip,
+	out := core.SafeCall(func() any {
+		return core.LoadOutcome(core.LoadReq{
+			Files:             map[string]string{"compose.yaml": doc, "missing.env": "K=v\n"},
+			ConfigFiles:       []string{"compose.yaml"},
+			Env:               env,
+			ProjectName:       "p",
+			SkipInterpolation: skip,
+		})
 	})
 	return mustJ(out)
 }
